@@ -64,7 +64,7 @@ def gen_appendix(ev):
 def seeds(tag):
     rows = []
     for d in sorted((V / "seeded").iterdir()):
-        m = re.fullmatch(r"(C\d\d)-(b|c|d|e)?(\d+)", d.name)
+        m = re.fullmatch(r"(C\d\d)-(b|c|d|e|f)?(\d+)", d.name)
         if not m or (m.group(2) or "") != tag:
             continue
         meta = json.loads((d / "meta.json").read_text())
@@ -96,7 +96,7 @@ def main():
     ev = evidence()
     p = V / "DESIGN.md"
     s = p.read_text()
-    gens = {"A0": gen_a0(ev), "APPENDIX": gen_appendix(ev), "SEEDS-B": gen_seed_table("b"), "SEEDS-C": gen_seed_table("c"), "SEEDS-D": gen_seed_table("d"), "SEEDS-E": gen_seed_table("e")}
+    gens = {"A0": gen_a0(ev), "APPENDIX": gen_appendix(ev), "SEEDS-B": gen_seed_table("b"), "SEEDS-C": gen_seed_table("c"), "SEEDS-D": gen_seed_table("d"), "SEEDS-E": gen_seed_table("e"), "SEEDS-F": gen_seed_table("f")}
     for name, text in gens.items():
         pat = re.compile(rf"(<!-- GEN:{name} -->\n).*?(\n<!-- /GEN:{name} -->)", re.S)
         if pat.search(s):
